@@ -475,6 +475,55 @@ Proof.
   destruct (Pos.eqb (vj_id x) id) eqn:E; [inversion H; subst; now apply Pos.eqb_eq | eauto].
 Qed.
 
+(** ** tasks that may differ: the two lists have the same (id, job, pod set) frame
+    pointwise, and a task differs only where [P id job] holds *)
+Definition same_but (P : positive -> positive -> bool) (l l' : list vtask) : Prop :=
+  Forall2 (fun x y => vt_id x = vt_id y /\ vt_job x = vt_job y /\ vt_pset x = vt_pset y
+                      /\ (P (vt_id x) (vt_job x) = false -> x = y)) l l'.
+
+Lemma same_but_refl : forall P l, same_but P l l.
+Proof. intros P l. induction l as [|x r IH]; constructor; auto. Qed.
+
+Lemma same_but_trans : forall P l1 l2 l3, same_but P l1 l2 -> same_but P l2 l3 -> same_but P l1 l3.
+Proof.
+  intros P l1 l2 l3 H. revert l3.
+  induction H as [|x y r1 r2 (Hi & Hj & Hp & He) Hr IH]; intros l3 H23;
+    inversion H23 as [|y' z r2' r3 (Hi' & Hj' & Hp' & He') Hr']; subst; constructor.
+  - repeat split; try congruence. intros HP. transitivity y; [auto|]. apply He'. rewrite <- Hi, <- Hj. exact HP.
+  - apply IH. exact Hr'.
+Qed.
+
+Lemma same_but_upd : forall P t f l, pres f ->
+  (forall tk, get_task l t = Some tk -> P t (vt_job tk) = true) -> same_but P l (upd_first t f l).
+Proof.
+  intros P t f l Hf. induction l as [|x r IH]; intros H; cbn [upd_first]; [constructor|].
+  destruct (Pos.eqb (vt_id x) t) eqn:E.
+  - constructor; [|apply same_but_refl]. destruct (Hf x) as (Hi & Hj & Hp). repeat split; auto.
+    intros HP. assert (Hx : P t (vt_job x) = true) by (apply H; cbn [get_task]; now rewrite E).
+    apply Pos.eqb_eq in E. rewrite E in HP. congruence.
+  - constructor; [repeat split; auto|]. apply IH. intros tk Hg. apply H. cbn [get_task]. now rewrite E.
+Qed.
+
+(** a count over a frame-defined sub-list that ignores the tasks that may differ *)
+Lemma same_but_count : forall P (g : positive * positive * positive -> bool) (q : vtask -> bool) l l',
+  same_but P l l' ->
+  (forall x, P (vt_id x) (vt_job x) = true -> g (vt_id x, vt_job x, vt_pset x) && q x = false) ->
+  countb q (filter (fun x => g (vt_id x, vt_job x, vt_pset x)) l)
+  = countb q (filter (fun x => g (vt_id x, vt_job x, vt_pset x)) l').
+Proof.
+  intros P g q l l' H Hq. unfold countb. f_equal.
+  induction H as [|x y r r' (Hi & Hj & Hp & He) Hr IH]; [reflexivity|].
+  cbn [filter]. rewrite <- Hi, <- Hj, <- Hp.
+  destruct (P (vt_id x) (vt_job x)) eqn:EP.
+  - pose proof (Hq x EP) as Hx.
+    assert (Hy : g (vt_id x, vt_job x, vt_pset x) && q y = false).
+    { pose proof (Hq y) as Hy. rewrite <- Hi, <- Hj, <- Hp in Hy. auto. }
+    destruct (g (vt_id x, vt_job x, vt_pset x)); [|exact IH].
+    cbn [andb] in Hx, Hy. cbn [filter]. rewrite Hx, Hy. exact IH.
+  - rewrite <- (He eq_refl). destruct (g (vt_id x, vt_job x, vt_pset x)); [|exact IH].
+    cbn [filter]. destruct (q x); cbn [List.length]; now rewrite IH.
+Qed.
+
 (** ** operations *)
 Definition evict_ids (ops : list sop) : list positive :=
   flat_map (fun o => match o with SEvict t _ _ _ _ => [t] | _ => [] end) ops.
@@ -638,10 +687,10 @@ Proof. intros o r H t n gs Hin. apply (H t n gs). now right. Qed.
 
 (** without failures (and without allocate operations) a commit emits one accepted
     call per valid operation and leaves the session as the statement built it *)
-Lemma commit_run_no_faults : forall c a pre ops ke kb s,
-  no_alloc ops -> commit_run c no_faults a pre ke kb s ops = (commit_ops a pre ops, s).
+Lemma commit_run_no_faults : forall c rs a pre ops ke kb s,
+  no_alloc ops -> commit_run c rs no_faults a pre ke kb s ops = (commit_ops a pre ops, s).
 Proof.
-  intros c a pre. induction ops as [|o r IH]; intros ke kb s Hna; [reflexivity|].
+  intros c rs a pre. induction ops as [|o r IH]; intros ke kb s Hna; [reflexivity|].
   pose proof (no_alloc_cons _ _ Hna) as Hr.
   destruct o as [t p g pn [|] | t n gs | t n gs]; cbn [commit_run commit_ops flat_map no_faults f_evict f_bind].
   - rewrite (IH _ _ _ Hr). reflexivity.
@@ -653,26 +702,26 @@ Qed.
 (** with the loop carrying on and no allocate operation, every oracle leaves the
     nominations alone and turns each valid evict operation into exactly one
     Evict call, accepted or refused *)
-Lemma commit_run_pipes : forall f a pre ops ke kb s t n gs,
+Lemma commit_run_pipes : forall rs f a pre ops ke kb s t n gs,
   no_alloc ops ->
-  (In (VPipe t n gs) (fst (commit_run true f a pre ke kb s ops)) <-> In (SPipe t n gs) ops).
+  (In (VPipe t n gs) (fst (commit_run true rs f a pre ke kb s ops)) <-> In (SPipe t n gs) ops).
 Proof.
-  intros f a pre. induction ops as [|o r IH]; intros ke kb s t n gs Hna; [cbn; tauto|].
+  intros rs f a pre. induction ops as [|o r IH]; intros ke kb s t n gs Hna; [cbn; tauto|].
   pose proof (no_alloc_cons _ _ Hna) as Hr.
   destruct o as [t0 p0 g0 pn0 [|] | t0 n0 gs0 | t0 n0 gs0]; cbn [commit_run].
   - destruct (f_evict f ke).
-    + destruct (commit_run true f a pre (S ke) kb (unevict_state s t0 pn0) r) as [cs s2] eqn:E. cbn [fst].
-      specialize (IH (S ke) kb (unevict_state s t0 pn0) t n gs Hr). rewrite E in IH. cbn [fst] in IH.
+    + destruct (commit_run true rs f a pre (S ke) kb (unevict_gen rs s t0 p0 g0 pn0) r) as [cs s2] eqn:E. cbn [fst].
+      specialize (IH (S ke) kb (unevict_gen rs s t0 p0 g0 pn0) t n gs Hr). rewrite E in IH. cbn [fst] in IH.
       split.
       * intros [Hx|Hx]; [discriminate | right; now apply IH].
       * intros [Hx|Hx]; [discriminate | right; now apply IH].
-    + destruct (commit_run true f a pre (S ke) kb s r) as [cs s2] eqn:E. cbn [fst].
+    + destruct (commit_run true rs f a pre (S ke) kb s r) as [cs s2] eqn:E. cbn [fst].
       specialize (IH (S ke) kb s t n gs Hr). rewrite E in IH. cbn [fst] in IH.
       split.
       * intros [Hx|Hx]; [discriminate | right; now apply IH].
       * intros [Hx|Hx]; [discriminate | right; now apply IH].
   - rewrite (IH ke kb s t n gs Hr). split; [now right | intros [Hx|Hx]; [discriminate | exact Hx]].
-  - destruct (commit_run true f a pre ke kb s r) as [cs s2] eqn:E. cbn [fst].
+  - destruct (commit_run true rs f a pre ke kb s r) as [cs s2] eqn:E. cbn [fst].
     specialize (IH ke kb s t n gs Hr). rewrite E in IH. cbn [fst] in IH.
     split.
     + intros [Hx|Hx]; [left; congruence | right; now apply IH].
@@ -685,96 +734,185 @@ Definition is_evict_call (c : vcall) : Prop :=
 Definition evict_call_of (c : vcall) (t : positive) (a : vaction) (p : positive) : Prop :=
   c = VEvict t a p \/ c = VEvictFailed t a p.
 
-Lemma commit_run_evicts : forall c f a pre ops ke kb s t a' p' x,
-  evict_call_of x t a' p' -> In x (fst (commit_run c f a pre ke kb s ops)) ->
+Lemma commit_run_evicts : forall c rs f a pre ops ke kb s t a' p' x,
+  evict_call_of x t a' p' -> In x (fst (commit_run c rs f a pre ke kb s ops)) ->
   a' = a /\ p' = pre /\ exists prev pg pn, In (SEvict t prev pg pn true) ops.
 Proof.
-  intros c f a pre. induction ops as [|o r IH]; intros ke kb s t a' p' x Hx Hin; [destruct Hin|].
+  intros c rs f a pre. induction ops as [|o r IH]; intros ke kb s t a' p' x Hx Hin; [destruct Hin|].
   destruct o as [t0 p0 g0 pn0 [|] | t0 n0 gs0 | t0 n0 gs0]; cbn [commit_run] in Hin.
   - destruct (f_evict f ke).
     + destruct c.
-      * destruct (commit_run true f a pre (S ke) kb (unevict_state s t0 pn0) r) as [cs s2] eqn:E. cbn [fst] in Hin.
+      * destruct (commit_run true rs f a pre (S ke) kb (unevict_gen rs s t0 p0 g0 pn0) r) as [cs s2] eqn:E. cbn [fst] in Hin.
         destruct Hin as [Hh|Hin].
         -- destruct Hx as [->| ->]; inversion Hh; subst. split; auto. split; auto. exists p0, g0, pn0. now left.
-        -- specialize (IH (S ke) kb (unevict_state s t0 pn0) t a' p' x Hx). rewrite E in IH.
+        -- specialize (IH (S ke) kb (unevict_gen rs s t0 p0 g0 pn0) t a' p' x Hx). rewrite E in IH.
            destruct (IH Hin) as (? & ? & pr & pg & pn & Hi). repeat split; auto. exists pr, pg, pn. now right.
       * cbn [fst] in Hin. destruct Hin as [Hh|[]].
         destruct Hx as [->| ->]; inversion Hh; subst. split; auto. split; auto. exists p0, g0, pn0. now left.
-    + destruct (commit_run c f a pre (S ke) kb s r) as [cs s2] eqn:E. cbn [fst] in Hin.
+    + destruct (commit_run c rs f a pre (S ke) kb s r) as [cs s2] eqn:E. cbn [fst] in Hin.
       destruct Hin as [Hh|Hin].
       * destruct Hx as [->| ->]; inversion Hh; subst. split; auto. split; auto. exists p0, g0, pn0. now left.
       * specialize (IH (S ke) kb s t a' p' x Hx). rewrite E in IH.
         destruct (IH Hin) as (? & ? & pr & pg & pn & Hi). repeat split; auto. exists pr, pg, pn. now right.
   - destruct (IH ke kb s t a' p' x Hx Hin) as (? & ? & pr & pg & pn & Hi). repeat split; auto. exists pr, pg, pn. now right.
-  - destruct (commit_run c f a pre ke kb s r) as [cs s2] eqn:E. cbn [fst] in Hin.
+  - destruct (commit_run c rs f a pre ke kb s r) as [cs s2] eqn:E. cbn [fst] in Hin.
     destruct Hin as [Hh|Hin]; [destruct Hx as [->| ->]; discriminate|].
     specialize (IH ke kb s t a' p' x Hx). rewrite E in IH.
     destruct (IH Hin) as (? & ? & pr & pg & pn & Hi). repeat split; auto. exists pr, pg, pn. now right.
   - destruct (f_bind f kb).
     + cbn [fst] in Hin. destruct Hin as [Hh|[]]. destruct Hx as [->| ->]; discriminate.
-    + destruct (commit_run c f a pre ke (S kb) (bound_state s t0) r) as [cs s2] eqn:E. cbn [fst] in Hin.
+    + destruct (commit_run c rs f a pre ke (S kb) (bound_state s t0) r) as [cs s2] eqn:E. cbn [fst] in Hin.
       destruct Hin as [Hh|Hin]; [destruct Hx as [->| ->]; discriminate|].
       specialize (IH ke (S kb) (bound_state s t0) t a' p' x Hx). rewrite E in IH.
       destruct (IH Hin) as (? & ? & pr & pg & pn & Hi). repeat split; auto. exists pr, pg, pn. now right.
 Qed.
 
 (** no allocate operation: no Bind call, accepted or refused *)
-Lemma commit_run_no_bind : forall c f a pre ops ke kb s x,
-  no_alloc ops -> In x (fst (commit_run c f a pre ke kb s ops)) ->
+Lemma commit_run_no_bind : forall c rs f a pre ops ke kb s x,
+  no_alloc ops -> In x (fst (commit_run c rs f a pre ke kb s ops)) ->
   match x with VBind _ _ _ | VBindFailed _ _ _ => False | _ => True end.
 Proof.
-  intros c f a pre. induction ops as [|o r IH]; intros ke kb s x Hna Hin; [destruct Hin|].
+  intros c rs f a pre. induction ops as [|o r IH]; intros ke kb s x Hna Hin; [destruct Hin|].
   pose proof (no_alloc_cons _ _ Hna) as Hr.
   destruct o as [t0 p0 g0 pn0 [|] | t0 n0 gs0 | t0 n0 gs0]; cbn [commit_run] in Hin.
   - destruct (f_evict f ke).
     + destruct c.
-      * destruct (commit_run true f a pre (S ke) kb (unevict_state s t0 pn0) r) as [cs s2] eqn:E. cbn [fst] in Hin.
+      * destruct (commit_run true rs f a pre (S ke) kb (unevict_gen rs s t0 p0 g0 pn0) r) as [cs s2] eqn:E. cbn [fst] in Hin.
         destruct Hin as [<-|Hin]; [exact I|].
-        specialize (IH (S ke) kb (unevict_state s t0 pn0) x Hr). rewrite E in IH. cbn [fst] in IH. exact (IH Hin).
+        specialize (IH (S ke) kb (unevict_gen rs s t0 p0 g0 pn0) x Hr). rewrite E in IH. cbn [fst] in IH. exact (IH Hin).
       * cbn [fst] in Hin. destruct Hin as [<-|[]]. exact I.
-    + destruct (commit_run c f a pre (S ke) kb s r) as [cs s2] eqn:E. cbn [fst] in Hin.
+    + destruct (commit_run c rs f a pre (S ke) kb s r) as [cs s2] eqn:E. cbn [fst] in Hin.
       destruct Hin as [<-|Hin]; [exact I|].
       specialize (IH (S ke) kb s x Hr). rewrite E in IH. cbn [fst] in IH. exact (IH Hin).
   - exact (IH ke kb s x Hr Hin).
-  - destruct (commit_run c f a pre ke kb s r) as [cs s2] eqn:E. cbn [fst] in Hin.
+  - destruct (commit_run c rs f a pre ke kb s r) as [cs s2] eqn:E. cbn [fst] in Hin.
     destruct Hin as [<-|Hin]; [exact I|].
     specialize (IH ke kb s x Hr). rewrite E in IH. cbn [fst] in IH. exact (IH Hin).
   - exfalso. apply (Hna t0 n0 gs0). now left.
 Qed.
 
 (** a refused bind ends the commit: the operations behind it are dropped *)
-Lemma commit_run_failed_bind : forall c f a pre kb ke s t n gs r,
+Lemma commit_run_failed_bind : forall c rs f a pre kb ke s t n gs r,
   f_bind f kb = true ->
-  commit_run c f a pre ke kb s (SAlloc t n gs :: r) = ([VBindFailed t n gs], unallocate_state s t n).
-Proof. intros c f a pre kb ke s t n gs r H. cbn [commit_run]. now rewrite H. Qed.
+  commit_run c rs f a pre ke kb s (SAlloc t n gs :: r) = ([VBindFailed t n gs], unallocate_state s t n).
+Proof. intros c rs f a pre kb ke s t n gs r H. cbn [commit_run]. now rewrite H. Qed.
+
+Lemma unevict_gen_frame : forall rs s t prev pg pn,
+  ss_jobs (unevict_gen rs s t prev pg pn) = ss_jobs s
+  /\ frame (ss_tasks (unevict_gen rs s t prev pg pn)) = frame (ss_tasks s).
+Proof.
+  intros rs s t prev pg pn. unfold unevict_gen, unevict_state, unevict_state_commit_time.
+  destruct rs; destruct (get_task (ss_tasks s) t); cbn [ss_jobs ss_tasks]; auto.
+  split; [reflexivity|]. apply frame_upd_first; auto.
+Qed.
 
 (** jobs and the (id, job, pod set) frame survive a commit *)
-Lemma commit_run_frame : forall c f a pre ops ke kb s,
-  ss_jobs (snd (commit_run c f a pre ke kb s ops)) = ss_jobs s
-  /\ frame (ss_tasks (snd (commit_run c f a pre ke kb s ops))) = frame (ss_tasks s).
+Lemma commit_run_frame : forall c rs f a pre ops ke kb s,
+  ss_jobs (snd (commit_run c rs f a pre ke kb s ops)) = ss_jobs s
+  /\ frame (ss_tasks (snd (commit_run c rs f a pre ke kb s ops))) = frame (ss_tasks s).
 Proof.
-  intros c f a pre. induction ops as [|o r IH]; intros ke kb s; [cbn; auto|].
+  intros c rs f a pre. induction ops as [|o r IH]; intros ke kb s; [cbn; auto|].
   assert (Hset : pres set_unallocated) by (intros x; cbn; auto).
   destruct o as [t0 p0 g0 pn0 [|] | t0 n0 gs0 | t0 n0 gs0]; cbn [commit_run].
   - destruct (f_evict f ke).
     + destruct c.
-      * specialize (IH (S ke) kb (unevict_state s t0 pn0)).
-        destruct (commit_run true f a pre (S ke) kb (unevict_state s t0 pn0) r) as [cs s2]. cbn [snd] in *.
-        destruct IH as [Hj Hf]. rewrite Hj, Hf. unfold unevict_state. destruct (get_task (ss_tasks s) t0); auto.
-      * cbn [snd]. unfold unevict_state. destruct (get_task (ss_tasks s) t0); auto.
-    + specialize (IH (S ke) kb s). destruct (commit_run c f a pre (S ke) kb s r) as [cs s2]. exact IH.
+      * specialize (IH (S ke) kb (unevict_gen rs s t0 p0 g0 pn0)).
+        destruct (commit_run true rs f a pre (S ke) kb (unevict_gen rs s t0 p0 g0 pn0) r) as [cs s2]. cbn [snd] in *.
+        destruct IH as [Hj Hf]. rewrite Hj, Hf. apply unevict_gen_frame.
+      * cbn [snd]. apply unevict_gen_frame.
+    + specialize (IH (S ke) kb s). destruct (commit_run c rs f a pre (S ke) kb s r) as [cs s2]. exact IH.
   - apply IH.
-  - specialize (IH ke kb s). destruct (commit_run c f a pre ke kb s r) as [cs s2]. exact IH.
+  - specialize (IH ke kb s). destruct (commit_run c rs f a pre ke kb s r) as [cs s2]. exact IH.
   - destruct (f_bind f kb).
     + cbn. split; auto. apply frame_upd_first; auto.
     + specialize (IH ke (S kb) (bound_state s t0)).
-      destruct (commit_run c f a pre ke (S kb) (bound_state s t0) r) as [cs s2]. cbn [snd] in *.
+      destruct (commit_run c rs f a pre ke (S kb) (bound_state s t0) r) as [cs s2]. cbn [snd] in *.
       destruct IH as [Hj Hf]. split; [exact Hj|]. rewrite Hf. cbn. apply frame_upd_first; auto.
 Qed.
 
+(** a commit changes at most the pods it holds an evict operation for (a refused
+    eviction gives the pod its recorded status back) *)
+Lemma unevict_gen_same_but : forall P rs s t prev pg pn,
+  (forall tk, get_task (ss_tasks s) t = Some tk -> P t (vt_job tk) = true) ->
+  same_but P (ss_tasks s) (ss_tasks (unevict_gen rs s t prev pg pn)).
+Proof.
+  intros P rs s t prev pg pn H. unfold unevict_gen, unevict_state, unevict_state_commit_time.
+  destruct rs; destruct (get_task (ss_tasks s) t) eqn:E; cbn [ss_tasks]; try apply same_but_refl.
+  apply same_but_upd; auto. rewrite E. exact H.
+Qed.
+
+Lemma commit_run_same_but : forall P c rs f a pre ops ke kb s,
+  no_alloc ops ->
+  (forall t tk, In t (evict_ids ops) -> get_task (ss_tasks s) t = Some tk -> P t (vt_job tk) = true) ->
+  same_but P (ss_tasks s) (ss_tasks (snd (commit_run c rs f a pre ke kb s ops))).
+Proof.
+  intros P c rs f a pre. induction ops as [|o r IH]; intros ke kb s Hna HP; [apply same_but_refl|].
+  pose proof (no_alloc_cons _ _ Hna) as Hr.
+  destruct o as [t0 p0 g0 pn0 [|] | t0 n0 gs0 | t0 n0 gs0]; cbn [commit_run].
+  - assert (HPr : forall t tk, In t (evict_ids r) -> get_task (ss_tasks s) t = Some tk -> P t (vt_job tk) = true).
+    { intros t tk Hin. apply HP. rewrite evict_ids_cons. apply in_or_app. now right. }
+    destruct (f_evict f ke).
+    + assert (H1 : same_but P (ss_tasks s) (ss_tasks (unevict_gen rs s t0 p0 g0 pn0))).
+      { apply unevict_gen_same_but. intros tk. apply HP. rewrite evict_ids_cons. apply in_or_app. left. now left. }
+      destruct c; [|exact H1].
+      assert (HP1 : forall t tk, In t (evict_ids r) -> get_task (ss_tasks (unevict_gen rs s t0 p0 g0 pn0)) t = Some tk ->
+                                 P t (vt_job tk) = true).
+      { intros t tk Hin Hg. destruct (unevict_gen_frame rs s t0 p0 g0 pn0) as (_ & Hf).
+        destruct (get_task_frame _ _ _ _ Hf Hg) as (tk' & Hg' & Hj' & _). rewrite <- Hj'. eapply HPr; eauto. }
+      specialize (IH (S ke) kb (unevict_gen rs s t0 p0 g0 pn0) Hr HP1).
+      destruct (commit_run true rs f a pre (S ke) kb (unevict_gen rs s t0 p0 g0 pn0) r) as [cs s2]. cbn [snd] in *.
+      eapply same_but_trans; eauto.
+    + specialize (IH (S ke) kb s Hr HPr). destruct (commit_run c rs f a pre (S ke) kb s r) as [cs s2]. exact IH.
+  - apply IH; auto. intros t tk Hin. apply HP. rewrite evict_ids_cons. apply in_or_app. now right.
+  - specialize (IH ke kb s Hr HP). destruct (commit_run c rs f a pre ke kb s r) as [cs s2]. exact IH.
+  - exfalso. apply (Hna t0 n0 gs0). now left.
+Qed.
+
+(** the commit as it is (repair 5a5de9a): a pod with a refused eviction ends the commit
+    with the status and GPU groups its evict operation recorded - whatever the
+    statement did to it in between - and keeps its node name *)
+Lemma commit_run_restores : forall f a pre t st0 gr0 ops ke kb s tk,
+  no_alloc ops ->
+  (forall prev pg pn, In (SEvict t prev pg pn true) ops -> prev = st0 /\ pg = gr0) ->
+  get_task (ss_tasks s) t = Some tk ->
+  ((vt_status tk = st0 /\ vt_groups tk = gr0)
+   \/ exists a' p', In (VEvictFailed t a' p') (fst (commit_run true true f a pre ke kb s ops))) ->
+  exists tk', get_task (ss_tasks (snd (commit_run true true f a pre ke kb s ops))) t = Some tk'
+    /\ vt_status tk' = st0 /\ vt_groups tk' = gr0 /\ vt_node tk' = vt_node tk.
+Proof.
+  intros f a pre t st0 gr0. induction ops as [|o r IH]; intros ke kb s tk Hna Hrec Hg Hd.
+  - cbn [commit_run fst snd] in *. destruct Hd as [(H1 & H2) | (a' & p' & [])]. eauto.
+  - pose proof (no_alloc_cons _ _ Hna) as Hr.
+    assert (Hrec' : forall prev pg pn, In (SEvict t prev pg pn true) r -> prev = st0 /\ pg = gr0).
+    { intros prev pg pn Hin. eapply Hrec. right. exact Hin. }
+    destruct o as [t0 p0 g0 pn0 [|] | t0 n0 gs0 | t0 n0 gs0]; cbn [commit_run] in *.
+    + destruct (f_evict f ke).
+      * cbn [unevict_gen] in *. destruct (Pos.eq_dec t0 t) as [->|Hne].
+        -- destruct (Hrec p0 g0 pn0 (or_introl eq_refl)) as (-> & ->).
+           assert (Hg1 : get_task (ss_tasks (unevict_state s t st0 gr0 pn0)) t = Some (set_status_groups st0 gr0 tk)).
+           { unfold unevict_state. rewrite Hg. cbn [ss_tasks]. rewrite get_task_upd_same, Hg by auto. reflexivity. }
+           specialize (IH (S ke) kb _ _ Hr Hrec' Hg1 (or_introl (conj eq_refl eq_refl))).
+           destruct (commit_run true true f a pre (S ke) kb (unevict_state s t st0 gr0 pn0) r) as [cs s2]. cbn [fst snd] in *.
+           exact IH.
+        -- assert (Hg1 : get_task (ss_tasks (unevict_state s t0 p0 g0 pn0)) t = Some tk).
+           { unfold unevict_state. destruct (get_task (ss_tasks s) t0); [|exact Hg].
+             cbn [ss_tasks]. rewrite get_task_upd_other by auto. exact Hg. }
+           specialize (IH (S ke) kb _ _ Hr Hrec' Hg1).
+           destruct (commit_run true true f a pre (S ke) kb (unevict_state s t0 p0 g0 pn0) r) as [cs s2]. cbn [fst snd] in *.
+           apply IH. destruct Hd as [Hd | (a' & p' & [Hh|Hin])]; [now left | inversion Hh; congruence | right; eauto].
+      * specialize (IH (S ke) kb s tk Hr Hrec' Hg).
+        destruct (commit_run true true f a pre (S ke) kb s r) as [cs s2]. cbn [fst snd] in *.
+        apply IH. destruct Hd as [Hd | (a' & p' & [Hh|Hin])]; [now left | discriminate | right; eauto].
+    + apply IH; auto.
+    + specialize (IH ke kb s tk Hr Hrec' Hg).
+      destruct (commit_run true true f a pre ke kb s r) as [cs s2]. cbn [fst snd] in *.
+      apply IH. destruct Hd as [Hd | (a' & p' & [Hh|Hin])]; [now left | discriminate | right; eauto].
+    + exfalso. apply (Hna t0 n0 gs0). now left.
+Qed.
+
 (** ** what a commit implies *)
-Lemma run_scenario_gen_inv : forall stale c f env a s pre sc sim calls s',
-  run_scenario_gen stale c f env a s pre sc sim = Committed calls s' ->
+Lemma run_scenario_gen_inv : forall stale c rs f env a s pre sc sim calls s',
+  run_scenario_gen stale c rs f env a s pre sc sim = Committed calls s' ->
   exists pj s1 ops1 s2 ops2,
     find_job (ss_jobs s) pre = Some pj
     /\ forallb (fun t => mem_pos t (sc_victims sc)) (sc_chosen sc) = true
@@ -783,9 +921,9 @@ Lemma run_scenario_gen_inv : forall stale c f env a s pre sc sim calls s',
     /\ pipeline_all s1 ops1 sim = Some (s2, ops2)
     /\ validate env s2 a pj sc = V true
     /\ job_solved s s2 pj = true
-    /\ commit_run c f a pre 0 0 s2 ops2 = (calls, s').
+    /\ commit_run c rs f a pre 0 0 s2 ops2 = (calls, s').
 Proof.
-  intros stale c f env a s pre sc sim calls s' H. unfold run_scenario_gen in H.
+  intros stale c rs f env a s pre sc sim calls s' H. unfold run_scenario_gen in H.
   destruct (find_job (ss_jobs s) pre) as [pj|]; [|discriminate].
   destruct (forallb (fun t => mem_pos t (sc_victims sc)) (sc_chosen sc)) eqn:Eg; cbn [negb] in H; [|discriminate].
   destruct (filter_all env s a (sc_seen sc) pj (sc_victims sc)) as [[|]| |] eqn:Ef; try discriminate.
@@ -793,7 +931,7 @@ Proof.
   destruct (pipeline_all s1 ops1 sim) as [[s2 ops2]|] eqn:Ep; [|discriminate].
   destruct (validate env s2 a pj sc) as [[|]| |] eqn:Ev; try discriminate.
   destruct (job_solved s s2 pj) eqn:Ej; [|discriminate].
-  destruct (commit_run c f a pre 0 0 s2 ops2) as [cs s3] eqn:Ec.
+  destruct (commit_run c rs f a pre 0 0 s2 ops2) as [cs s3] eqn:Ec.
   inversion H; subst. exists pj, s1, ops1, s2, ops2. repeat split; auto.
 Qed.
 
@@ -948,8 +1086,8 @@ Proof.
 Qed.
 
 (** the commit without failures: one accepted call per valid operation, session as the statement left it *)
-Lemma run_scenario_old_inv : forall stale c env a s pre sc sim calls s',
-  run_scenario_gen stale c no_faults env a s pre sc sim = Committed calls s' ->
+Lemma run_scenario_old_inv : forall stale c rs env a s pre sc sim calls s',
+  run_scenario_gen stale c rs no_faults env a s pre sc sim = Committed calls s' ->
   exists pj s1 ops1 ops2,
     find_job (ss_jobs s) pre = Some pj
     /\ forallb (fun t => mem_pos t (sc_victims sc)) (sc_chosen sc) = true
@@ -960,9 +1098,9 @@ Lemma run_scenario_old_inv : forall stale c env a s pre sc sim calls s',
     /\ job_solved s s' pj = true
     /\ calls = commit_ops a pre ops2.
 Proof.
-  intros stale c env a s pre sc sim calls s' H.
-  destruct (run_scenario_gen_inv _ _ _ _ _ _ _ _ _ _ _ H) as (pj & s1 & ops1 & s2 & ops2 & Hpj & Hg & Hfa & Hev & Hpi & Hval & Hsol & Hc).
-  rewrite (commit_run_no_faults c a pre ops2 0 0 s2 (scenario_no_alloc _ _ _ _ _ _ _ _ Hev Hpi)) in Hc.
+  intros stale c rs env a s pre sc sim calls s' H.
+  destruct (run_scenario_gen_inv _ _ _ _ _ _ _ _ _ _ _ _ H) as (pj & s1 & ops1 & s2 & ops2 & Hpj & Hg & Hfa & Hev & Hpi & Hval & Hsol & Hc).
+  rewrite (commit_run_no_faults c rs a pre ops2 0 0 s2 (scenario_no_alloc _ _ _ _ _ _ _ _ Hev Hpi)) in Hc.
   inversion Hc; subst. exists pj, s1, ops1, ops2. repeat split; auto.
 Qed.
 
@@ -977,7 +1115,7 @@ Lemma run_scenario_inv : forall env a s pre sc sim calls s',
     /\ validate env s' a pj sc = V true
     /\ job_solved s s' pj = true
     /\ calls = commit_ops a pre ops2.
-Proof. intros env a s pre sc sim calls s' H. exact (run_scenario_old_inv [] true _ _ _ _ _ _ _ _ H). Qed.
+Proof. intros env a s pre sc sim calls s' H. exact (run_scenario_old_inv [] true true _ _ _ _ _ _ _ _ H). Qed.
 
 Lemma dedup_pos_in : forall l x, In x (dedup_pos l) <-> In x l.
 Proof.
@@ -1016,6 +1154,21 @@ Proof.
   pose proof (countb_and_le _ st_active_alloc (fun t => negb (mem_pos (vt_id t) (map vt_id victims)))
                 (pset_tasks s (vj_id j) (vt_pset tkv))) as Hle.
   cbn beta in Hle. apply Z.ltb_ge in H. lia.
+Qed.
+
+(** the same, before forgetting the victims: the pods that remain are not victims *)
+Lemma valid_victim_remaining : forall s j victims,
+  valid_victim_for_min_available s j victims = V true ->
+  forall tkv m, In tkv victims -> plookup (vt_pset tkv) (vj_psets j) = Some m ->
+  m <= countb (fun t => st_active_alloc t && negb (mem_pos (vt_id t) (map vt_id victims)))
+              (pset_tasks s (vj_id j) (vt_pset tkv)).
+Proof.
+  intros s j victims H tkv m Hin Hm. unfold valid_victim_for_min_available in H.
+  destruct (forallb (fun sg => is_some (plookup sg (vj_psets j))) (dedup_pos (map vt_pset victims))); [|discriminate].
+  injection H as H. rewrite forallb_forall in H.
+  assert (Hsg : In (vt_pset tkv) (dedup_pos (map vt_pset victims))) by (apply dedup_pos_in; now apply in_map).
+  specialize (H _ Hsg). cbn beta zeta in H. rewrite Hm in H. apply negb_true_iff in H.
+  apply Z.ltb_ge in H. exact H.
 Qed.
 
 Lemma mrt_validator_jobs_in : forall env s a pj vics js,
@@ -1085,8 +1238,15 @@ Proof.
   - congruence.
 Qed.
 
-Lemma victim_eligible_core : forall env a s pre sc sim calls s' t a' p',
+(** the pods of job [j0] that are not victims of the scenario are the same in [l] and [l'] *)
+Definition victims_may_differ (s2 : sstate) (vics : list positive) (j0 : positive) : positive -> positive -> bool :=
+  fun id jb => negb (Pos.eqb jb j0) || mem_pos id (map vt_id (victims_of_job s2 vics j0)).
+
+(** clause 1 with the live pods counted in ANY session [sF] that differs from the one
+    the statement built ([s']) on victim pods only *)
+Lemma victim_eligible_gen : forall env a s pre sc sim calls s' sF t a' p',
   run_scenario env a s pre sc sim = Committed calls s' ->
+  (forall j0, same_but (victims_may_differ s' (sc_victims sc) j0) (ss_tasks s') (ss_tasks sF)) ->
   In (VEvict t a' p') calls ->
   a' = a /\ p' = pre /\
   exists pj j tk,
@@ -1096,9 +1256,9 @@ Lemma victim_eligible_core : forall env a s pre sc sim calls s' t a' p',
     /\ (a = AReclaim -> vj_queue j <> vj_queue pj)
     /\ (a <> AConsolidation -> inside_min_runtime env a pj j = true ->
         job_elastic s j = true
-        /\ forall m, plookup (vt_pset tk) (vj_psets j) = Some m -> m <= live_count s' (vj_id j) (vt_pset tk)).
+        /\ forall m, plookup (vt_pset tk) (vj_psets j) = Some m -> m <= live_count sF (vj_id j) (vt_pset tk)).
 Proof.
-  intros env a s pre sc sim calls s' t a' p' Hrun Hin.
+  intros env a s pre sc sim calls s' sF t a' p' Hrun HR Hin.
   destruct (run_scenario_inv _ _ _ _ _ _ _ _ Hrun) as (pj & s1 & ops1 & ops2 & Hpj & Hg & Hfa & Hev & Hpi & Hval & Hsol & ->).
   destruct (commit_ops_evict _ _ _ _ _ _ Hin) as (-> & -> & prev & pg & pn & Hop).
   split; [reflexivity|]. split; [reflexivity|].
@@ -1136,8 +1296,37 @@ Proof.
     specialize (Hv Hb).
     assert (Hvin : In tk' (victims_of_job s' (sc_victims sc) (vj_id j))).
     { unfold victims_of_job. apply filter_In. split; auto. rewrite Hjob', <- Hid. apply Pos.eqb_refl. }
-    pose proof (valid_victim_true _ _ _ Hv tk' m Hvin) as Hle. rewrite Hps' in Hle.
-    unfold live_count. auto.
+    pose proof (valid_victim_remaining _ _ _ Hv tk' m Hvin) as Hle. rewrite Hps' in Hle. specialize (Hle Hm).
+    set (vids := map vt_id (victims_of_job s' (sc_victims sc) (vj_id j))) in *.
+    set (q := fun t0 : vtask => st_active_alloc t0 && negb (mem_pos (vt_id t0) vids)) in *.
+    assert (Hc : countb q (pset_tasks s' (vj_id j) (vt_pset tk)) = countb q (pset_tasks sF (vj_id j) (vt_pset tk))).
+    { unfold pset_tasks, tasks_of_job. rewrite !filter_filter'.
+      refine (same_but_count (victims_may_differ s' (sc_victims sc) (vj_id j))
+                (fun tr => Pos.eqb (snd (fst tr)) (vj_id j) && Pos.eqb (snd tr) (vt_pset tk)) q _ _ (HR (vj_id j)) _).
+      intros x HP. unfold victims_may_differ in HP. fold vids in HP. cbn [fst snd]. unfold q.
+      destruct (Pos.eqb (vt_job x) (vj_id j)); cbn [negb orb andb] in *; [|reflexivity].
+      rewrite HP. cbn [negb]. now rewrite !andb_false_r. }
+    unfold live_count. rewrite Hc in Hle.
+    pose proof (countb_and_le _ st_active_alloc (fun t0 => negb (mem_pos (vt_id t0) vids)) (pset_tasks sF (vj_id j) (vt_pset tk))) as Hw.
+    change (countb q (pset_tasks sF (vj_id j) (vt_pset tk)) <= countb st_active_alloc (pset_tasks sF (vj_id j) (vt_pset tk))) in Hw.
+    lia.
+Qed.
+
+Lemma victim_eligible_core : forall env a s pre sc sim calls s' t a' p',
+  run_scenario env a s pre sc sim = Committed calls s' ->
+  In (VEvict t a' p') calls ->
+  a' = a /\ p' = pre /\
+  exists pj j tk,
+    find_job (ss_jobs s) pre = Some pj /\ get_task (ss_tasks s) t = Some tk /\ job_of s t = Some j
+    /\ vj_preemptible j = true
+    /\ (a = APreempt -> vj_queue j = vj_queue pj /\ vj_prio j < vj_prio pj)
+    /\ (a = AReclaim -> vj_queue j <> vj_queue pj)
+    /\ (a <> AConsolidation -> inside_min_runtime env a pj j = true ->
+        job_elastic s j = true
+        /\ forall m, plookup (vt_pset tk) (vj_psets j) = Some m -> m <= live_count s' (vj_id j) (vt_pset tk)).
+Proof.
+  intros env a s pre sc sim calls s' t a' p' Hrun Hin.
+  eapply victim_eligible_gen; eauto. intros j0. apply same_but_refl.
 Qed.
 
 (** ** clause 2: a commit places a pod of the pending job *)
@@ -1372,21 +1561,21 @@ Definition as_accepted (c : vcall) : vcall :=
   | c => c
   end.
 
-Lemma commit_run_erase : forall f a pre ops ke kb s,
-  no_alloc ops -> map as_accepted (fst (commit_run true f a pre ke kb s ops)) = commit_ops a pre ops.
+Lemma commit_run_erase : forall rs f a pre ops ke kb s,
+  no_alloc ops -> map as_accepted (fst (commit_run true rs f a pre ke kb s ops)) = commit_ops a pre ops.
 Proof.
-  intros f a pre. induction ops as [|o r IH]; intros ke kb s Hna; [reflexivity|].
+  intros rs f a pre. induction ops as [|o r IH]; intros ke kb s Hna; [reflexivity|].
   pose proof (no_alloc_cons _ _ Hna) as Hr.
   destruct o as [t0 p0 g0 pn0 [|] | t0 n0 gs0 | t0 n0 gs0]; cbn [commit_run commit_ops flat_map].
   - destruct (f_evict f ke).
-    + specialize (IH (S ke) kb (unevict_state s t0 pn0) Hr).
-      destruct (commit_run true f a pre (S ke) kb (unevict_state s t0 pn0) r) as [cs s2]. cbn [fst map as_accepted app] in *.
+    + specialize (IH (S ke) kb (unevict_gen rs s t0 p0 g0 pn0) Hr).
+      destruct (commit_run true rs f a pre (S ke) kb (unevict_gen rs s t0 p0 g0 pn0) r) as [cs s2]. cbn [fst map as_accepted app] in *.
       now rewrite IH.
     + specialize (IH (S ke) kb s Hr).
-      destruct (commit_run true f a pre (S ke) kb s r) as [cs s2]. cbn [fst map as_accepted app] in *. now rewrite IH.
+      destruct (commit_run true rs f a pre (S ke) kb s r) as [cs s2]. cbn [fst map as_accepted app] in *. now rewrite IH.
   - apply IH; auto.
   - specialize (IH ke kb s Hr).
-    destruct (commit_run true f a pre ke kb s r) as [cs s2]. cbn [fst map as_accepted app] in *. now rewrite IH.
+    destruct (commit_run true rs f a pre ke kb s r) as [cs s2]. cbn [fst map as_accepted app] in *. now rewrite IH.
   - exfalso. apply (Hna t0 n0 gs0). now left.
 Qed.
 
@@ -1395,12 +1584,12 @@ Lemma faults_only_refuse : forall f env a s pre sc sim calls s',
   exists s0, run_scenario env a s pre sc sim = Committed (map as_accepted calls) s0.
 Proof.
   intros f env a s pre sc sim calls s' H.
-  destruct (run_scenario_gen_inv _ _ _ _ _ _ _ _ _ _ _ H) as (pj & s1 & ops1 & s2 & ops2 & Hpj & Hg & Hfa & Hev & Hpi & Hval & Hsol & Hc).
+  destruct (run_scenario_gen_inv _ _ _ _ _ _ _ _ _ _ _ _ H) as (pj & s1 & ops1 & s2 & ops2 & Hpj & Hg & Hfa & Hev & Hpi & Hval & Hsol & Hc).
   pose proof (scenario_no_alloc _ _ _ _ _ _ _ _ Hev Hpi) as Hna.
   exists s2. unfold run_scenario, run_scenario_f, run_scenario_gen.
   rewrite Hpj, Hg. cbn [negb]. rewrite Hfa, Hev, Hpi, Hval, Hsol.
-  rewrite (commit_run_no_faults true a pre ops2 0 0 s2 Hna).
-  pose proof (commit_run_erase f a pre ops2 0 0 s2 Hna) as He. rewrite Hc in He. cbn [fst] in He. now rewrite He.
+  rewrite (commit_run_no_faults true true a pre ops2 0 0 s2 Hna).
+  pose proof (commit_run_erase true f a pre ops2 0 0 s2 Hna) as He. rewrite Hc in He. cbn [fst] in He. now rewrite He.
 Qed.
 
 Lemma as_accepted_pipe : forall calls t n gs, In (VPipe t n gs) (map as_accepted calls) <-> In (VPipe t n gs) calls.
@@ -1420,9 +1609,100 @@ Lemma scenario_never_binds : forall f env a s pre sc sim calls s' x,
   match x with VBind _ _ _ | VBindFailed _ _ _ => False | _ => True end.
 Proof.
   intros f env a s pre sc sim calls s' x H Hin.
-  destruct (run_scenario_gen_inv _ _ _ _ _ _ _ _ _ _ _ H) as (pj & s1 & ops1 & s2 & ops2 & _ & _ & _ & Hev & Hpi & _ & _ & Hc).
-  eapply (commit_run_no_bind true f a pre ops2 0 0 s2 x (scenario_no_alloc _ _ _ _ _ _ _ _ Hev Hpi)).
+  destruct (run_scenario_gen_inv _ _ _ _ _ _ _ _ _ _ _ _ H) as (pj & s1 & ops1 & s2 & ops2 & _ & _ & _ & Hev & Hpi & _ & _ & Hc).
+  eapply (commit_run_no_bind true true f a pre ops2 0 0 s2 x (scenario_no_alloc _ _ _ _ _ _ _ _ Hev Hpi)).
   rewrite Hc. exact Hin.
+Qed.
+
+(** ** what the evict operations record: the pod as the scenario found it *)
+Definition rec_inv (s : sstate) (ops : list sop) : Prop :=
+  forall t prev pg pn, In (SEvict t prev pg pn true) ops ->
+    prev <> Releasing
+    /\ exists tk, get_task (ss_tasks s) t = Some tk /\ vt_status tk = prev /\ vt_groups tk = pg.
+
+Definition evict_phase_inv (s : sstate) (c : sstate * list sop) : Prop :=
+  (forall t, ~ In t (evict_ids (snd c)) -> get_task (ss_tasks (fst c)) t = get_task (ss_tasks s) t)
+  /\ (forall t, In t (evict_ids (snd c)) -> releasing_in (fst c) t)
+  /\ rec_inv s (snd c).
+
+Lemma evict_all_rec : forall s evl s1 ops1, evict_all s [] evl = Some (s1, ops1) -> rec_inv s ops1.
+Proof.
+  intros s evl s1 ops1 H. unfold evict_all, evict_all_gen in H.
+  eapply (fold_opt_inv _ _ _ (evict_phase_inv s)) in H.
+  - destruct H as (_ & _ & H). exact H.
+  - intros x [c1 o1] [c2 o2] _ (Ha & Hb & Hc) Hs. cbn [fst snd] in *.
+    apply stmt_evict_gen_inv in Hs.
+    destruct Hs as (tk & Hg & [(_ & _ & -> & ->) | (pn & Hnr & _ & _ & Ht' & Ho')]).
+    { unfold evict_phase_inv. cbn [fst snd]. auto. }
+    assert (Hnr' : vt_status tk <> Releasing) by (apply Hnr; intros []).
+    assert (Hnx : ~ In x (evict_ids o1)).
+    { intros Hin. destruct (Hb x Hin) as (tk' & Hg' & Hs'). rewrite Hg in Hg'. inversion Hg'; subst. contradiction. }
+    assert (Hids : forall t, In t (evict_ids o2) <-> In t (evict_ids o1) \/ t = x).
+    { intros t. rewrite Ho', evict_ids_app. cbn. rewrite in_app_iff. cbn. intuition. }
+    unfold evict_phase_inv. cbn [fst snd]. split; [|split].
+    + intros t Hn. assert (Hne : t <> x) by (intros ->; apply Hn, Hids; now right).
+      rewrite Ht', get_task_upd_other by auto. apply Ha. intros Hin. apply Hn, Hids. now left.
+    + intros t Hin. apply Hids in Hin. unfold releasing_in. destruct (Pos.eq_dec t x) as [->|Hne].
+      * rewrite Ht', get_task_upd_same, Hg by auto. cbn. eauto.
+      * destruct Hin as [Hin|Hin]; [|contradiction]. destruct (Hb t Hin) as (tk' & Hg' & Hs').
+        rewrite Ht', get_task_upd_other by auto. eauto.
+    + intros t prev pg pn' Hin. rewrite Ho' in Hin. apply in_app_or in Hin. destruct Hin as [Hin|[Hin|[]]]; [exact (Hc _ _ _ _ Hin)|].
+      inversion Hin; subst. split; [exact Hnr'|]. exists tk. rewrite <- (Ha t Hnx). auto.
+  - unfold evict_phase_inv. cbn [fst snd]. split; [reflexivity|]. split; [intros t []|]. intros t prev pg pn [].
+Qed.
+
+Lemma pipeline_all_rec : forall s s1 ops1 sim s2 ops2,
+  rec_inv s ops1 -> pipeline_all s1 ops1 sim = Some (s2, ops2) -> rec_inv s ops2.
+Proof.
+  intros s s1 ops1 sim s2 ops2 H0 H. unfold pipeline_all in H.
+  eapply (fold_opt_inv _ _ _ (fun c => rec_inv s (snd c))) in H; eauto.
+  intros [[t n] gs] [c1 o1] [c2 o2] _ Hc Hs. cbn [fst snd] in *.
+  apply stmt_pipeline_inv in Hs. destruct Hs as (tk & _ & _ & [(_ & Ho' & _) | (prev & pg & Hu & _)]).
+  - intros t' p g pn Hin. rewrite Ho' in Hin. apply in_app_or in Hin. destruct Hin as [Hin|[Hin|[]]]; [exact (Hc _ _ _ _ Hin) | discriminate].
+  - apply unevict_first_props in Hu. destruct Hu as (_ & _ & _ & _ & _ & H6 & _).
+    intros t' p g pn Hin. exact (Hc _ _ _ _ (H6 _ _ _ _ Hin)).
+Qed.
+
+(** a commit under any oracle, taken apart: the statement [ops2] built in session [s2]
+    is the one the commit without failures commits; its evict operations are for
+    victims of the scenario and record the pods as the scenario found them *)
+Lemma faults_decompose : forall f env a s pre sc sim calls s',
+  run_scenario_f f env a s pre sc sim = Committed calls s' ->
+  exists s2 ops2,
+    run_scenario env a s pre sc sim = Committed (map as_accepted calls) s2
+    /\ commit_run true true f a pre 0 0 s2 ops2 = (calls, s')
+    /\ no_alloc ops2
+    /\ frame (ss_tasks s2) = frame (ss_tasks s)
+    /\ (forall t, In t (evict_ids ops2) -> In t (sc_victims sc))
+    /\ rec_inv s ops2.
+Proof.
+  intros f env a s pre sc sim calls s' H.
+  destruct (run_scenario_gen_inv _ _ _ _ _ _ _ _ _ _ _ _ H) as (pj & s1 & ops1 & s2 & ops2 & Hpj & Hg & Hfa & Hev & Hpi & Hval & Hsol & Hc).
+  pose proof (pipeline_all_base _ _ _ _ _ _ _ (evict_all_base _ _ _ _ _ Hev) Hpi) as (_ & Hframe & Hids & Hna).
+  cbn [fst snd] in *.
+  exists s2, ops2. split; [|split; [exact Hc|]; split; [exact Hna|]; split; [exact Hframe|]; split].
+  - unfold run_scenario, run_scenario_f, run_scenario_gen.
+    rewrite Hpj, Hg. cbn [negb]. rewrite Hfa, Hev, Hpi, Hval, Hsol.
+    rewrite (commit_run_no_faults true true a pre ops2 0 0 s2 Hna).
+    pose proof (commit_run_erase true f a pre ops2 0 0 s2 Hna) as He. rewrite Hc in He. cbn [fst] in He. now rewrite He.
+  - intros t Hin. apply evicted_in_victims; auto.
+  - eapply pipeline_all_rec; eauto. eapply evict_all_rec; eauto.
+Qed.
+
+(** the session a commit leaves under any oracle differs from the one the statement
+    built on victim pods only *)
+Lemma faults_touch_victims_only : forall f a pre s2 ops2 vics calls s' j0,
+  commit_run true true f a pre 0 0 s2 ops2 = (calls, s') -> no_alloc ops2 ->
+  (forall t, In t (evict_ids ops2) -> In t vics) ->
+  same_but (victims_may_differ s2 vics j0) (ss_tasks s2) (ss_tasks s').
+Proof.
+  intros f a pre s2 ops2 vics calls s' j0 Hc Hna Hids.
+  pose proof (commit_run_same_but (victims_may_differ s2 vics j0) true true f a pre ops2 0 0 s2 Hna) as H.
+  rewrite Hc in H. cbn [snd] in H. apply H.
+  intros t tk Hin Hg. unfold victims_may_differ.
+  destruct (Pos.eqb (vt_job tk) j0) eqn:Ej; cbn [negb orb]; [|reflexivity].
+  apply mem_pos_in. rewrite <- (get_task_id _ _ _ Hg). apply in_map.
+  unfold victims_of_job. apply filter_In. split; [|exact Ej]. eapply tasks_of_in; eauto.
 Qed.
 
 (** ** an action: every commit of any sequence of scenarios *)
@@ -1430,9 +1710,9 @@ Lemma commit_keeps_jobs : forall f env a s pre sc sim calls s',
   run_scenario_f f env a s pre sc sim = Committed calls s' -> ss_jobs s' = ss_jobs s.
 Proof.
   intros f env a s pre sc sim calls s' Hrun.
-  destruct (run_scenario_gen_inv _ _ _ _ _ _ _ _ _ _ _ Hrun) as (pj & s1 & ops1 & s2 & ops2 & _ & _ & _ & Hev & Hpi & _ & _ & Hc).
+  destruct (run_scenario_gen_inv _ _ _ _ _ _ _ _ _ _ _ _ Hrun) as (pj & s1 & ops1 & s2 & ops2 & _ & _ & _ & Hev & Hpi & _ & _ & Hc).
   pose proof (pipeline_all_base _ _ _ _ _ _ _ (evict_all_base _ _ _ _ _ Hev) Hpi) as (Hj & _).
-  pose proof (commit_run_frame true f a pre ops2 0 0 s2) as (Hj2 & _). rewrite Hc in Hj2. cbn [fst snd] in *. congruence.
+  pose proof (commit_run_frame true true f a pre ops2 0 0 s2) as (Hj2 & _). rewrite Hc in Hj2. cbn [fst snd] in *. congruence.
 Qed.
 
 Definition commit_of (env : venv) (s : sstate) (c : step * list vcall) : Prop :=
@@ -1488,7 +1768,7 @@ Proof. split; vm_compute; reflexivity. Qed.
     node un-evicts only the first; the commit evicts it and re-places it nowhere.
     The code as it is records one operation and nothing is evicted. *)
 Lemma ex_double_evict :
-  (exists s', run_scenario_gen [2%positive] true no_faults ex_env AConsolidation (ex_state 2400 50 2) 3
+  (exists s', run_scenario_gen [2%positive] true true no_faults ex_env AConsolidation (ex_state 2400 50 2) 3
                (mkSc [2%positive] [] [2%positive] 0 true) [(3%positive, 2%positive, []); (2%positive, 2%positive, [])]
    = Committed [VEvict 2 AConsolidation 3; VPipe 3 2 []] s')
   /\ (exists s', run_scenario ex_env AConsolidation (ex_state 2400 50 2) 3 (mkSc [2%positive] [] [2%positive] 0 true)
@@ -1500,10 +1780,20 @@ Proof. split; eexists; vm_compute; reflexivity. Qed.
 Definition ex_second_evict_fails : faults := mkF (fun k => Nat.eqb k 1) (fun _ => false).
 Definition ex_gang_scenario : scenario := mkSc [] [1%positive; 2%positive] [1%positive; 2%positive] 0 true.
 
-(** the code as it is: v evicted, w refused (in the session w stays Releasing: commitEvict "un-evicts" it to
-    the status it has at commit time), p nominated all the same *)
+(** the code as it is (repair 5a5de9a): v evicted, w refused and back to Running in the session (commitEvict
+    reverses the evict operation), p nominated all the same *)
 Lemma ex_refused_eviction :
   run_scenario_f ex_second_evict_fails ex_env APreempt (ex_state 18720 75 2) 3 ex_gang_scenario [(3%positive, 1%positive, [])]
+  = Committed [VEvict 1 APreempt 3; VEvictFailed 2 APreempt 3; VPipe 3 1 []]
+              (mkSS (ss_jobs (ex_state 18720 75 2))
+                    [mkVT 1 1 1 Releasing (Some 1%positive) [] false; mkVT 2 2 2 Running (Some 2%positive) [] false;
+                     mkVT 3 3 3 Pipelined (Some 1%positive) [] false]
+                    [(1%positive, 1%positive, []); (2%positive, 2%positive, []); (3%positive, 1%positive, [])]).
+Proof. vm_compute. reflexivity. Qed.
+
+(** BEFORE repair 5a5de9a ([restore = false]): the same commit left w Releasing in the session *)
+Lemma ex_refused_eviction_before_repair :
+  run_scenario_gen [] true false ex_second_evict_fails ex_env APreempt (ex_state 18720 75 2) 3 ex_gang_scenario [(3%positive, 1%positive, [])]
   = Committed [VEvict 1 APreempt 3; VEvictFailed 2 APreempt 3; VPipe 3 1 []]
               (mkSS (ss_jobs (ex_state 18720 75 2))
                     [mkVT 1 1 1 Releasing (Some 1%positive) [] false; mkVT 2 2 2 Releasing (Some 2%positive) [] false;
@@ -1511,9 +1801,21 @@ Lemma ex_refused_eviction :
                     [(1%positive, 1%positive, []); (2%positive, 2%positive, []); (3%positive, 1%positive, [])]).
 Proof. vm_compute. reflexivity. Qed.
 
+(** a consolidation victim w that the statement re-placed on node 1, its eviction refused: w is Running again
+    and keeps the NEW node's name (Statement.unevict does not restore NodeName); both nodes hold a copy *)
+Lemma ex_refused_moved :
+  run_scenario_f (mkF (fun _ => true) (fun _ => false)) ex_env AConsolidation (ex_state 2400 50 2) 3
+                 (mkSc [] [2%positive] [2%positive] 0 true) [(3%positive, 2%positive, []); (2%positive, 1%positive, [])]
+  = Committed [VEvictFailed 2 AConsolidation 3; VPipe 3 2 []; VPipe 2 1 []]
+              (mkSS (ss_jobs (ex_state 2400 50 2))
+                    [mkVT 1 1 1 Running (Some 1%positive) [] false; mkVT 2 2 2 Running (Some 1%positive) [] false;
+                     mkVT 3 3 3 Pipelined (Some 2%positive) [] false]
+                    [(1%positive, 1%positive, []); (2%positive, 2%positive, []); (3%positive, 2%positive, []); (2%positive, 1%positive, [])]).
+Proof. vm_compute. reflexivity. Qed.
+
 (** the variant that returns at the first refused eviction: v is evicted for p and p is not nominated *)
 Lemma ex_stop_at_refused_eviction :
-  exists s', run_scenario_gen [] false ex_second_evict_fails ex_env APreempt (ex_state 18720 75 2) 3 ex_gang_scenario
+  exists s', run_scenario_gen [] false true ex_second_evict_fails ex_env APreempt (ex_state 18720 75 2) 3 ex_gang_scenario
                [(3%positive, 1%positive, [])]
   = Committed [VEvict 1 APreempt 3; VEvictFailed 2 APreempt 3] s'.
 Proof. eexists. vm_compute. reflexivity. Qed.
@@ -1521,7 +1823,7 @@ Proof. eexists. vm_compute. reflexivity. Qed.
 (** Commit on a statement that evicts and then ALLOCATES (no action builds one): a refused bind ends the
     commit behind an accepted eviction - the nominations that follow are dropped *)
 Lemma ex_refused_bind :
-  fst (commit_run true (mkF (fun _ => false) (fun _ => true)) APreempt 3 0 0 (ex_state 18720 75 2)
+  fst (commit_run true true (mkF (fun _ => false) (fun _ => true)) APreempt 3 0 0 (ex_state 18720 75 2)
                   [SEvict 1 Running [] 1 true; SAlloc 3 1 []; SPipe 3 2 []])
   = [VEvict 1 APreempt 3; VBindFailed 3 1 []].
 Proof. vm_compute. reflexivity. Qed.
@@ -1625,36 +1927,87 @@ Proof.
 Qed.
 
 (** under any failure oracle: an Evict call, accepted or refused, is an eviction of the same scenario's commit
-    without failures, and is eligible as above (live pods counted in the session [s0] that commit leaves) *)
+    without failures, and is eligible as above - with the live pods counted in the session [s0] that commit
+    leaves AND in the session [s'] the commit under the oracle really leaves (since repair 5a5de9a a refused
+    victim is back to its pre-eviction status there: the two sessions differ, on victim pods only) *)
 Lemma victim_eligible_faults : forall f env a s pre sc sim calls s' x t a' p',
   run_scenario_f f env a s pre sc sim = Committed calls s' ->
   evict_call_of x t a' p' -> In x calls ->
   a' = a /\ p' = pre
+  /\ victim_eligible_at (fun a => a <> AConsolidation) env a s s' pre t
   /\ exists s0, run_scenario env a s pre sc sim = Committed (map as_accepted calls) s0
        /\ victim_eligible_at (fun a => a <> AConsolidation) env a s s0 pre t.
 Proof.
   intros f env a s pre sc sim calls s' x t a' p' Hr Hx Hin.
-  destruct (faults_only_refuse _ _ _ _ _ _ _ _ _ Hr) as (s0 & H0).
+  destruct (faults_decompose _ _ _ _ _ _ _ _ _ Hr) as (s0 & ops2 & H0 & Hc & Hna & _ & Hids & _).
   pose proof (as_accepted_evict _ _ _ _ _ Hx Hin) as Hev.
   destruct (victim_eligible_core _ _ _ _ _ _ _ _ _ _ _ H0 Hev) as (-> & -> & Hel).
-  split; [reflexivity|]. split; [reflexivity|]. exists s0. auto.
+  split; [reflexivity|]. split; [reflexivity|]. split; [|exists s0; auto].
+  assert (HR : forall j0, same_but (victims_may_differ s0 (sc_victims sc) j0) (ss_tasks s0) (ss_tasks s')).
+  { intros j0. eapply faults_touch_victims_only; eauto. }
+  destruct (victim_eligible_gen _ _ _ _ _ _ _ _ s' _ _ _ H0 HR Hev) as (_ & _ & Hel'). exact Hel'.
+Qed.
+
+(** a refused eviction leaves the pod as the scenario found it: in the session the commit leaves, the pod
+    has its pre-eviction status - which is not Releasing - and GPU groups ([restore = true]: the code as it is) *)
+Definition refused_eviction_restores_statement (restore : bool) : Prop :=
+  forall f env a s pre sc sim calls s' t a' p',
+    run_scenario_gen [] true restore f env a s pre sc sim = Committed calls s' ->
+    In (VEvictFailed t a' p') calls ->
+    exists tk tk', get_task (ss_tasks s) t = Some tk /\ get_task (ss_tasks s') t = Some tk'
+      /\ vt_status tk' = vt_status tk /\ vt_groups tk' = vt_groups tk /\ vt_status tk' <> Releasing.
+
+Lemma refused_eviction_restores : refused_eviction_restores_statement true.
+Proof.
+  intros f env a s pre sc sim calls s' t a' p' Hr Hin.
+  destruct (faults_decompose _ _ _ _ _ _ _ _ _ Hr) as (s2 & ops2 & _ & Hc & Hna & Hframe & _ & Hrec).
+  assert (Hin' : In (VEvictFailed t a' p') (fst (commit_run true true f a pre 0 0 s2 ops2))) by (rewrite Hc; exact Hin).
+  destruct (commit_run_evicts true true f a pre ops2 0 0 s2 t a' p' _ (or_intror eq_refl) Hin') as (_ & _ & prev & pg & pn & Hop).
+  destruct (Hrec _ _ _ _ Hop) as (Hnr & tk & Htk & Hst & Hgr).
+  assert (Hfr : frame (ss_tasks s) = frame (ss_tasks s2)) by (symmetry; exact Hframe).
+  destruct (get_task_frame _ _ _ _ Hfr Htk) as (tk2 & Htk2 & _).
+  assert (Hall : forall prev' pg' pn', In (SEvict t prev' pg' pn' true) ops2 -> prev' = vt_status tk /\ pg' = vt_groups tk).
+  { intros prev' pg' pn' Hop'. destruct (Hrec _ _ _ _ Hop') as (_ & tk0 & Htk0 & Hs0 & Hg0).
+    rewrite Htk in Htk0. inversion Htk0; subst. auto. }
+  destruct (commit_run_restores f a pre t (vt_status tk) (vt_groups tk) ops2 0 0 s2 tk2 Hna Hall Htk2
+              (or_intror (ex_intro _ a' (ex_intro _ p' Hin')))) as (tk' & Htk' & Hs' & Hg' & _).
+  rewrite Hc in Htk'. cbn [snd] in Htk'.
+  exists tk, tk'. repeat split; auto. rewrite Hs', Hst. exact Hnr.
 Qed.
 
 (** the same for every commit of any sequence of scenarios, whatever Cache calls fail (the state [si] in which the
-    statement was built has the cycle's jobs; [sj]: the session its commit leaves when no call fails) *)
+    statement was built has the cycle's jobs; [sj]: the session the commit REALLY leaves under its oracle, from
+    which the action goes on) *)
 Lemma victim_eligible_cycle : forall env s steps cs sf,
   run_steps env s steps = Some (cs, sf) ->
   forall st calls, In (st, calls) cs ->
   forall x t a' p', evict_call_of x t a' p' -> In x calls ->
   a' = sp_action st /\ p' = sp_preemptor st
   /\ exists si sj, ss_jobs si = ss_jobs s
+       /\ run_scenario_f (sp_faults st) env (sp_action st) si (sp_preemptor st) (sp_scenario st) (sp_sim st) = Committed calls sj
        /\ victim_eligible_at (fun a => a <> AConsolidation) env (sp_action st) si sj (sp_preemptor st) t.
 Proof.
   intros env s steps cs sf Hrun st calls Hin x t a' p' Hx Hev.
   pose proof (run_steps_commits _ _ _ _ _ Hrun) as Hall. rewrite Forall_forall in Hall.
   destruct (Hall _ Hin) as (si & sj & Hj & Hr). cbn [fst snd] in Hr.
-  destruct (victim_eligible_faults _ _ _ _ _ _ _ _ _ _ _ _ _ Hr Hx Hev) as (-> & -> & s0 & _ & Hel).
-  split; [reflexivity|]. split; [reflexivity|]. exists si, s0. auto.
+  destruct (victim_eligible_faults _ _ _ _ _ _ _ _ _ _ _ _ _ Hr Hx Hev) as (-> & -> & Hel & _).
+  split; [reflexivity|]. split; [reflexivity|]. exists si, sj. auto.
+Qed.
+
+(** every refused eviction of every commit of any sequence of scenarios leaves the pod as that commit's scenario found it *)
+Lemma refused_eviction_restores_cycle : forall env s steps cs sf,
+  run_steps env s steps = Some (cs, sf) ->
+  forall st calls, In (st, calls) cs ->
+  forall t a' p', In (VEvictFailed t a' p') calls ->
+  exists si sj, ss_jobs si = ss_jobs s
+    /\ run_scenario_f (sp_faults st) env (sp_action st) si (sp_preemptor st) (sp_scenario st) (sp_sim st) = Committed calls sj
+    /\ exists tk tk', get_task (ss_tasks si) t = Some tk /\ get_task (ss_tasks sj) t = Some tk'
+         /\ vt_status tk' = vt_status tk /\ vt_groups tk' = vt_groups tk /\ vt_status tk' <> Releasing.
+Proof.
+  intros env s steps cs sf Hrun st calls Hin t a' p' Hev.
+  pose proof (run_steps_commits _ _ _ _ _ Hrun) as Hall. rewrite Forall_forall in Hall.
+  destruct (Hall _ Hin) as (si & sj & Hj & Hr). cbn [fst snd] in Hr.
+  exists si, sj. split; [exact Hj|]. split; [exact Hr|]. eapply refused_eviction_restores; eauto.
 Qed.
 
 (** clause 2 under any failure oracle: every nomination of the commit without failures is issued - among
@@ -1685,10 +2038,19 @@ Proof.
   exists si. split; auto. eapply eviction_has_purpose_faults; eauto.
 Qed.
 
+(** before repair 5a5de9a a refused eviction left the pod Releasing *)
+Lemma refused_eviction_restores_before_repair : ~ refused_eviction_restores_statement false.
+Proof.
+  intros H.
+  destruct (H _ _ _ _ _ _ _ _ _ 2%positive APreempt 3%positive ex_refused_eviction_before_repair (or_intror (or_introl eq_refl)))
+    as (tk & tk' & _ & Htk' & _ & _ & Hnr).
+  vm_compute in Htk'. injection Htk' as <-. apply Hnr. reflexivity.
+Qed.
+
 (** the variant of Commit that returns at the first refused eviction breaks clause 2 *)
 Lemma commit_must_carry_on :
   exists f env a s pre sc sim calls s' t,
-    run_scenario_gen [] false f env a s pre sc sim = Committed calls s'
+    run_scenario_gen [] false true f env a s pre sc sim = Committed calls s'
     /\ In (VEvict t a pre) calls /\ forall t' n gs, ~ In (VPipe t' n gs) calls.
 Proof.
   destruct ex_stop_at_refused_eviction as (s' & H).
@@ -1699,7 +2061,7 @@ Qed.
 (** clause 3, for a given set of stale copies ([[]]: the code as it is) and every failure oracle *)
 Definition consolidation_moves_statement (stale : list positive) : Prop :=
   forall f env s pre sc sim calls s' t a' p',
-    run_scenario_gen stale true f env AConsolidation s pre sc sim = Committed calls s' ->
+    run_scenario_gen stale true true f env AConsolidation s pre sc sim = Committed calls s' ->
     In (VEvict t a' p') calls ->
     exists n gs, In (VPipe t n gs) calls /\ good_move s t n gs.
 
